@@ -1405,7 +1405,7 @@ VARIANTS: List[Variant] = [
 
 META = {
     "design_ref": "DESIGN.md section 3, C19",
-    "technique": "path-condition freshness facts at every construction of a named node that reaches the output; template binder extraction; blacklist component check; transaction def-use; parameter-kind coverage of the use-site collector; adopted scheduler clauses (C10); census rules (spelling kinds, stale arguments by version tokens); component check of the equivalence key of duplicate functions",
+    "technique": "path-condition freshness facts at every construction of a named node that reaches the output; template binder extraction; blacklist component check; transaction def-use; parameter-kind coverage of the use-site collector; adopted scheduler clauses (C10); census rules (spelling kinds, stale arguments by version tokens); component check of the equivalence key of duplicate functions; path-condition search facts at every construction of a renaming transformer; key-component check of (class, member) tables projected inside the class loop",
     "level_text": ("Decides on the current source that every synthesised identifier that a rewrite binds is tested against "
                    "the identifiers of the tree on all paths (or drawn from a guarded name generator), that convention "
                    "renaming applies a blacklist with keywords, builtins, imported and defined names, and that one renamed "
